@@ -336,7 +336,7 @@ def tlc_start(module, cfg, workdir, env=None, workers=1, extra=None, heap="3g", 
     return pr, meta
 
 
-VIOL_RE = re.compile(r'^<<"VIOL", "([A-Za-z0-9_]+)", (\d+), (\d+), (.*)>>$')
+VIOL_RE = re.compile(r'^"?VIOL\|([A-Za-z0-9_]+)\|(\d+)\|(\d+)\|(.*?)"?$')
 CONS_RE = re.compile(r'^<<"TRACE-CONSUMED", (\d+), (\d+), (\d+), (\d+)>>$')
 
 
@@ -368,7 +368,7 @@ def monitor(traces, clauses, workdir, par=8, timeout=1800):
                 mm = VIOL_RE.match(line.strip())
                 if mm:
                     viols.append({"clause": mm.group(1), "run": int(mm.group(2)), "line": int(mm.group(3)),
-                                  "detail": mm.group(4), "trace": tf})
+                                  "detail": mm.group(4).replace('\\"', '"'), "trace": tf})
                 mc = CONS_RE.match(line.strip())
                 if mc:
                     consumed = True
